@@ -71,7 +71,7 @@ def main():
         print(f"not reproduced on the current tree (property={pid})")
         return 0
     st = common.lean_build()
-    common.audit_axioms(st, pid)
+    common.audit_axioms(st, pid, tier)
     res = mod.run(tier, seed)
     # minimised past failures run on every check (corpus/<id>/*.json)
     cdir = os.path.join(common.ROOT, "corpus", pid)
